@@ -203,6 +203,8 @@ def partner(ref, name):
         return apply(ref, ['map', 'mul3'])
     if name == 'self_rev':
         return apply(ref, ['slice', [None, None, -1]])
+    if name == 'self_rev_map':
+        return apply(apply(ref, ['slice', [None, None, -1]]), ['map', 'mul3'])
     if name == 'list_n':
         return source(['list', [100 + i for i in range(n)], 'pickle'])
     if name == 'list_2':
